@@ -202,3 +202,16 @@ PROPS["C16"] = {
     "thorough": {"configs": ["default", "arduino"], "cases": 8000000, "floor_evaluations": 8000000},
     "regress": ["numbers_on_a_stream"],
 }
+
+PROPS["C18"] = {
+    "title": "Comparison operators form one coherent relation that agrees with the values",
+    "src": "c18.cpp",
+    "level": "exploration",
+    "technique": "property-based testing of algebraic laws over all six operators in both operand orders, plus agreement with a value model (__int128 for integer pairs, double otherwise; bytes for strings/raw; order-insensitive members for objects)",
+    "rule": "case = pool of 6-11 values in two documents with deliberate twins (the same number as int32/int64/uint64/float/double, 2^53+1, +-2^63, 2^64-1, +-0, NaN/Inf, equal/prefix strings in linked and copied storage incl. NUL, equal/prefix raw values, copies/permutations/prefixes of earlier containers, booleans, null, an unbound reference); every ordered pair (incl. a value with itself) x 12 operator results, and every pool value against C++ scalars of 9 types, const char*, std::string and nullptr in both orders; non-trivial = the pool contains mixed number storage, containers or prefix-related strings; distinct = hash of the pool rendering",
+    "level_text": "Exploration: the six laws of the property are asserted on every pair; equality and numeric ordering must agree with the model. NaN operands, bool-vs-number and objects with duplicate keys are judged for the laws only (zones, counted).",
+    "level_note": "Ordering between strings and between containers is only judged for coherence, as the property says.",
+    "quick": {"cases": 150000, "floor_evaluations": 100000, "floor_nontrivial": 50000},
+    "thorough": {"cases": 6000000, "floor_evaluations": 3000000},
+    "regress": [],
+}
